@@ -12,6 +12,7 @@ from harness.abstract_plan import abstract
 from harness.framework import cZ, cZlist, pmap
 
 LEVEL = "proof"
+TRANSLATED_KERNELS = True   # harness/translate.py: kernels re-translated from /repo on every run and proved equal to the model
 RULE = ("K: calculate_projected_mem / peak_projected_mem / fuse_multiple.projected_mem / _find_ops_exceeding_memory on generated "
         "integers and on real finalized plans vs Model.Memory; O: for generated programs the admission boundary is probed at "
         "allowed_mem in {M-1, M, M+1} (M = max projected memory of the plan built under that budget) on the three local executors "
@@ -19,7 +20,7 @@ RULE = ("K: calculate_projected_mem / peak_projected_mem / fuse_multiple.project
         "default optimization keeps every op within budget. non-trivial = a boundary probe whose outcome flips between M-1 and M; "
         "distinct = distinct program x budget")
 ASSUMPTIONS = ["plans depend on allowed_mem (rechunk stages, fusion decisions): M is re-read for every budget probed"]
-TRUSTED = ["tracing WrapperStore (harness/tracing_store.py) sees every store access of the intermediate store"]
+TRUSTED = ["harness/translate.py (fail-closed Python-ast -> Gallina translator for calculate_projected_mem; Python int = Z, // and % = Z.div / Z.modulo, ceil(a / b) = cdiv on positive ints)", "tracing WrapperStore (harness/tracing_store.py) sees every store access of the intermediate store"]
 
 
 def k_arith(ctx):
